@@ -1,6 +1,262 @@
 import Driver.JsonIO
+import RulioModel.CronTimeline
+import RulioModel.Crolt
 open Lean
 
-/-- model-side handler for cases whose "kind" starts with "c16." (stub until the property's slice lands) -/
+/-! Model-side handler for C16 (driver glue; not used by any theorem).
+
+* `c16.tl`    — the op sequence of the harness on `CronM`, with clock 1000 (between the coded past and future due times);
+                when the loop is started the timer contract is applied after every op (`settle`).
+* `c16.wall`  — timed scenario: the model is run in closed loop with the timer contract ("an armed timer is delivered at
+                its target") and `Fn` durations; prints the predicted fires and the event trace.
+* `c16.crolt` — the service's transactions with the due times the implementation chose. -/
+
+namespace C16D
+open CronM
+
+def idOf (ids : List String) (s : String) : Nat := (ids.findIdx? (· == s)).getD ids.length
+def idName (ids : List String) (n : Nat) : String := ids.getD n ("#" ++ toString n)
+
+def collectIds (ops : List Json) : List String :=
+  ops.foldl (fun acc o => let i := jstr o "id"; if i != "" && !acc.contains i then acc ++ [i] else acc) []
+
+def jnat (j : Json) (k : String) : Nat := (jint j k).toNat
+
+/-- timer contract + immediate `Fn`s: deliver the armed timer while its target has come, complete in-flight jobs at once -/
+def settle : Nat → Cron → Cron
+  | 0, s => s
+  | fuel + 1, s =>
+    match s.inflight with
+    | j :: _ => settle fuel (step s (.done j.serial))
+    | [] =>
+      if s.paused then s else
+      match s.armed with
+      | some t => if t ≤ s.clock then settle fuel (step s .tick) else s
+      | none => s
+
+def tlJson (ids : List String) (tl : List Job) : Json :=
+  Json.arr (tl.map (fun j => Json.arr #[Json.str (idName ids j.id), Json.num (JsonNumber.fromNat j.next)])).toArray
+
+def firedJson (ids : List String) (log : List Fire) : Json :=
+  Json.arr (log.reverse.map (fun f => Json.arr #[Json.str (idName ids f.id), Json.num (JsonNumber.fromNat f.serial)])).toArray
+
+def sortedB (tl : List Job) : Bool :=
+  match tl with
+  | [] => true
+  | j :: rest => rest.all (fun x => j.next ≤ x.next) && sortedB rest
+
+def uniqueB (tl : List Job) : Bool :=
+  match tl with
+  | [] => true
+  | j :: rest => rest.all (fun x => x.id != j.id) && uniqueB rest
+
+def doTl (c : Json) : Json :=
+  let ops := jarr c "ops"
+  let ids := collectIds ops
+  let started := jbool c "started"
+  let s0 : Cron := { init (jnat c "limit") with clock := 1000 }
+  let s0 := if started then settle 100 s0 else s0
+  let (_, outs) := ops.foldl (fun (acc : Cron × List Json) o =>
+    let (s, outs) := acc
+    let id := idOf ids (jstr o "id")
+    let (s', extra) : Cron × List (String × Json) := match jstr o "op" with
+      | "add" =>
+        let j : Job := ⟨id, jnat o "due", jnat o "period", s.serial⟩
+        let r := schedule { s with serial := s.serial + 1 } j true
+        (r.1, if r.2 then [] else [("adderr", Json.bool true)])
+      | "rem" => (step s (.rem id), [("found", Json.bool (hasJob id s.tl))])
+      | "suspend" | "bsuspend" => (if started then step s .suspend else s, [])
+      | "resume" | "bresume" => (if started then step s .resume else s, [])
+      | "pause" => (if started then step (settle 100 (step s .pauseBegin)) .pauseEnd else s, [])
+      | _ => (s, [("err", Json.str "op")])
+    let s' := if started then settle 100 s' else s'
+    let out := Json.mkObj ([("tl", tlJson ids s'.tl), ("pending", Json.num (JsonNumber.fromNat s'.tl.length)),
+      ("fired", firedJson ids s'.log), ("sorted", Json.bool (sortedB s'.tl)), ("unique", Json.bool (uniqueB s'.tl))] ++ extra)
+    (s', outs ++ [out])) (s0, [])
+  Json.mkObj [("outs", Json.arr outs.toArray)]
+
+/-! ### timed simulation -/
+
+structure Sim where
+  s : Cron
+  /-- serial ↦ duration of `Fn` -/
+  durs : List (Nat × Nat) := []
+  /-- (serial, time at which `Fn` returns) -/
+  running : List (Nat × Nat) := []
+  pauseEnd : Option Nat := none
+  near : Nat := 0
+  events : List (Nat × String) := []
+  found : List Json := []
+
+def advanceTo (s : Cron) (t : Nat) : Cron := if s.clock < t then step s (.advance (t - s.clock)) else s
+
+def minBy (l : List (Nat × Nat)) : Option (Nat × Nat) :=
+  l.foldl (fun acc e => match acc with | none => some e | some a => if e.2 < a.2 then some e else some a) none
+
+/-- internal events (done / pause end / timer) up to time `limit` (exclusive when `strict`) -/
+def internal (pauseMs : Nat) : Nat → Sim → Nat → Sim
+  | 0, sim, _ => sim
+  | fuel + 1, sim, limit =>
+    let tD := minBy sim.running
+    let tT : Option Nat := if sim.s.paused then none else sim.s.armed.map (fun t => max t sim.s.clock)
+    -- choose the earliest; order at equal times: done, pause end, timer
+    let cand : List (Nat × Nat) := (match tD with | some (_, t) => [(0, t)] | none => []) ++
+      (match sim.pauseEnd with | some t => [(1, t)] | none => []) ++ (match tT with | some t => [(2, t)] | none => [])
+    match minBy cand with
+    | none => sim
+    | some (kind, t) =>
+      if t ≥ limit then sim else
+      let s := advanceTo sim.s t
+      if kind == 0 then
+        match tD with
+        | some (k, _) =>
+          internal pauseMs fuel { sim with s := step s (.done k), running := sim.running.filter (fun e => e.1 != k),
+                                           events := sim.events ++ [(t, "done")] } limit
+        | none => sim
+      else if kind == 1 then
+        internal pauseMs fuel { sim with s := step s .pauseEnd, pauseEnd := none, events := sim.events ++ [(t, "pauseEnd")] } limit
+      else
+        let n0 := s.log.length
+        let s' := step s .tick
+        -- a delivery that finds the head not ready, but due within `near`: the real outcome depends on the timer latency
+        let miss := match s'.tl.head? with
+          | some h => s'.log.length == n0 && s.clock < h.next && h.next - s.clock < sim.near
+          | none => false
+        let sim' := { sim with s := s', events := sim.events ++ [(t, if s'.log.length > n0 then "fire" else if miss then "nearmiss" else "tick")] }
+        -- a popped job starts running
+        let sim' := if s'.log.length > n0 then
+            match s'.log.head? with
+            | some f => { sim' with running := sim'.running ++ [(f.serial, t + ((sim.durs.lookup f.serial).getD 0))] }
+            | none => sim'
+          else sim'
+        internal pauseMs fuel sim' limit
+
+/-- `fa`: repaired timer arming (Rem re-arms; a delivery that finds nothing ready re-arms) — the behaviour the property
+demands where the real code has the rem-head-disarms defect. `fb`: Rem/replace also cancels the re-scheduling of a running
+job with that id (rem-in-flight defect). With both off this is the faithful model. -/
+def fixArm (fa : Bool) (s : Cron) : Cron :=
+  if fa && !s.suspended && !s.paused then { s with armed := rearm s.tl } else s
+
+def dropRunning (fb : Bool) (id : Nat) (s : Cron) : Cron :=
+  if fb then { s with inflight := s.inflight.filter (fun j => j.id != id) } else s
+
+/-- internal events with the optional repair of the timer -/
+def internalF (fa : Bool) (pauseMs : Nat) : Nat → Sim → Nat → Sim
+  | 0, sim, _ => sim
+  | fuel + 1, sim, limit =>
+    let sim1 := internal pauseMs 1 sim limit
+    if sim1.events.length == sim.events.length then sim1
+    else
+      let last := sim1.events.getLast?.map (·.2)
+      let sim1 := if last == some "tick" || last == some "nearmiss" then { sim1 with s := fixArm fa sim1.s } else sim1
+      internalF fa pauseMs fuel sim1 limit
+
+def simulate (c : Json) (fa fb : Bool) : Sim × List String :=
+  let ops := jarr c "ops"
+  let ids := collectIds ops
+  let pauseMs := jnat c "pause_ms"
+  let clock0 := jnat c "clock0"
+  let horizon := jnat c "horizon"
+  let s0 : Cron := { init (jnat c "limit") with clock := clock0 }
+  let sim0 : Sim := { s := s0, near := jnat c "near" }
+  let sim0 := internalF fa pauseMs 50 sim0 (clock0 + 1)   -- the initial 0 s timer
+  let sim := ops.foldl (fun (sim : Sim) o =>
+    let t := clock0 + jnat o "t"
+    let sim := internalF fa pauseMs 1000 sim t
+    let s := advanceTo sim.s t
+    let id := idOf ids (jstr o "id")
+    let sim := { sim with s := s, events := sim.events ++ [(t, "op:" ++ jstr o "op")] }
+    let sim := match jstr o "op" with
+    | "add" =>
+      let period := jnat o "period"
+      let due := if period == 0 then t + jnat o "delay" else 0
+      let j : Job := ⟨id, due, period, s.serial⟩
+      let r := schedule { (dropRunning fb id s) with serial := s.serial + 1 } j true
+      { sim with s := r.1, durs := (s.serial, jnat o "dur") :: sim.durs,
+                 found := sim.found ++ [Json.mkObj [("adderr", Json.bool (!r.2)), ("inflight", Json.bool (s.inflight.any (fun j => j.id == id)))]] }
+    | "rem" =>
+      { sim with s := fixArm fa (dropRunning fb id (step s (.rem id))),
+                 found := sim.found ++ [Json.mkObj [("found", Json.bool (hasJob id s.tl)), ("inflight", Json.bool (s.inflight.any (fun j => j.id == id))),
+                   ("serial", Json.num (JsonNumber.fromNat s.serial))]] }
+    | "suspend" | "bsuspend" => { sim with s := step s .suspend, found := sim.found ++ [Json.mkObj []] }
+    | "resume" | "bresume" => { sim with s := step s .resume, found := sim.found ++ [Json.mkObj []] }
+    | "pause" => { sim with s := step s .pauseBegin, pauseEnd := some (t + pauseMs), found := sim.found ++ [Json.mkObj []] }
+    | _ => sim
+    -- what the operation triggers at once (a timer armed for a time already past, an instantaneous Fn) happens before the next operation
+    internalF fa pauseMs 1000 sim (t + 1)) sim0
+  (internalF fa pauseMs 1000 sim (clock0 + horizon), ids)
+
+def firesJson (ids : List String) (clock0 : Nat) (log : List Fire) : Json :=
+  Json.arr (log.reverse.map (fun f => Json.mkObj [("id", Json.str (idName ids f.id)), ("serial", Json.num (JsonNumber.fromNat f.serial)),
+      ("t", Json.num (JsonNumber.fromInt ((f.time : Int) - clock0))), ("due", Json.num (JsonNumber.fromInt ((f.due : Int) - clock0))),
+      ("period", Json.num (JsonNumber.fromNat f.period))])).toArray
+
+def doWall (c : Json) : Json :=
+  let clock0 := jnat c "clock0"
+  let (sim, ids) := simulate c false false
+  let (simA, _) := simulate c true false
+  let (simAB, _) := simulate c true true
+  let key (s : Sim) := s.s.log.map (fun f => (f.id, f.serial, f.time))
+  Json.mkObj [("fires", firesJson ids clock0 sim.s.log), ("ops", Json.arr sim.found.toArray),
+    ("pending", Json.num (JsonNumber.fromNat sim.s.tl.length)),
+    ("tl", Json.arr (sim.s.tl.map (fun j => Json.arr #[Json.str (idName ids j.id), Json.num (JsonNumber.fromInt ((j.next : Int) - clock0))])).toArray),
+    ("armed", match sim.s.armed with | some t => Json.num (JsonNumber.fromInt ((t : Int) - clock0)) | none => Json.null),
+    ("suspended", Json.bool sim.s.suspended),
+    ("stuck", Json.bool (sim.s.armed.isNone && !sim.s.tl.isEmpty && !sim.s.suspended && !sim.s.paused)),
+    ("spec_fires", firesJson ids clock0 simAB.s.log),
+    ("spec_pending", Json.num (JsonNumber.fromNat simAB.s.tl.length)),
+    ("class_disarm", Json.bool (key sim != key simA || sim.s.tl.length != simA.s.tl.length)),
+    ("class_inflight", Json.bool (key simA != key simAB || simA.s.tl.length != simAB.s.tl.length)),
+    ("events", Json.arr (sim.events.map (fun e => Json.arr #[Json.num (JsonNumber.fromInt ((e.1 : Int) - clock0)), Json.str e.2])).toArray)]
+
+/-! ### crolt -/
+
+open Crolt in
+def jobOfJson (o : Json) : Crolt.Job :=
+  let tid : Option TId := match jget o "tid" with
+    | .arr a => if a.size == 2 then some ⟨(a[0]!.getNat?).toOption.getD 0, (a[1]!.getNat?).toOption.getD 0⟩ else none
+    | _ => none
+  ⟨jnat o "aid", tid, jbool o "isDur", jbool o "once", jbool o "evict"⟩
+
+open Crolt in
+def jobJson (j : Crolt.Job) : Json :=
+  Json.mkObj [("aid", Json.num (JsonNumber.fromNat j.aid)),
+    ("tid", match j.tid with | some t => Json.arr #[Json.num (JsonNumber.fromNat t.ts), Json.num (JsonNumber.fromNat t.aid)] | none => Json.null),
+    ("once", Json.bool j.once), ("evict", Json.bool j.evict)]
+
+open Crolt in
+def binvB (db : DB) : Bool :=
+  db.jobs.all (fun (a, j) => j.aid == a && (match j.tid with | some t => t.aid == a && get t db.time == some j | none => false)) &&
+  db.time.all (fun (t, j) => j.tid == some t && t.aid == j.aid && get j.aid db.jobs == some j)
+
+open Crolt in
+def doCrolt (c : Json) : Json :=
+  let ops := jarr c "ops"
+  let (_, outs) := ops.foldl (fun (acc : DB × List Json) o =>
+    let (db, outs) := acc
+    let (db', extra) : DB × List (String × Json) := match jstr o "op" with
+      | "add" => let r := add db (jobOfJson o) (jnat o "ts"); (r.1, [("ok", Json.bool r.2)])
+      | "addCommit" => (addCommit db (jobOfJson o) (jnat o "ts"), [])
+      | "delete" => (delete db (jnat o "aid"), [])
+      | "work" =>
+        let sel := (jarr o "sel").map (fun e => ((⟨jnat e "ts", jnat e "aid"⟩ : TId), jnat e "newts"))
+        (work db (jnat o "now") sel, [])
+      | _ => (db, [])
+    let jobs := db'.jobs.map (fun (a, j) => Json.arr #[Json.num (JsonNumber.fromNat a), jobJson j])
+    let time := db'.time.map (fun (t, j) => Json.arr #[Json.num (JsonNumber.fromNat t.ts), Json.num (JsonNumber.fromNat t.aid), jobJson j])
+    let nfired := db'.log.length - db.log.length
+    let fired := (db'.log.take nfired).reverse.map (fun f => Json.arr #[Json.num (JsonNumber.fromNat f.aid), Json.num (JsonNumber.fromNat f.due)])
+    let out := Json.mkObj ([("jobs", Json.arr jobs.toArray), ("time", Json.arr time.toArray), ("fired", Json.arr fired.toArray),
+      ("binv", Json.bool (binvB db'))] ++ extra)
+    (db', outs ++ [out])) (({} : DB), [])
+  Json.mkObj [("outs", Json.arr outs.toArray)]
+
+end C16D
+
+/-- model-side handler for cases whose "kind" starts with "c16." -/
 def handleC16 (kind : String) (c : Json) : Json :=
-  Json.mkObj [("err", Json.str ("unknown kind " ++ kind))]
+  match kind with
+  | "c16.tl" => C16D.doTl c
+  | "c16.wall" => C16D.doWall c
+  | "c16.crolt" => C16D.doCrolt c
+  | _ => Json.mkObj [("err", Json.str ("unknown kind " ++ kind))]
